@@ -29,6 +29,10 @@
 //     multi-tier query still answers and shows every file at least once;
 //   - after the further fault-free cycle the multi-tier query sees each file / each row exactly once.
 //
+// Beyond one cycle (history.go, overlap.go, bounds.go): multi-operation histories over {cycle, MigrateFile of a
+// STALE candidate, ReconcileOrphanedFiles} with every single fault in every position, and two overlapping
+// RunMigrationCycle calls on the same Manager explored over all interleavings of their steps.
+//
 // Visibility is taken from the real multi-tier read expression (QueryHandler.buildMultiTierReadParquet via
 // buildReadParquetExprForMeasurement and via the whole-statement transform getTransformedSQL) executed in a
 // real DuckDB (database.New, sandboxed like production): file level = DuckDB glob() over exactly the path
@@ -82,9 +86,12 @@ var errDead = errors.New("verif: process crashed (injected)")
 // ------------------------------------------------------------------ plan: what is injected into one cycle
 
 type site struct {
-	Kind string `json:"kind"` // R0 Rm W0 Wm M D B G I C S
-	Role string `json:"file"` // which migrating file the step belongs to
+	Kind  string `json:"kind"`            // R0 Rm W0 Wm M D B G I C S
+	Role  string `json:"file"`            // which migrating file the step belongs to
+	Cycle string `json:"cycle,omitempty"` // overlapping cycles: the cycle ("A" | "B") whose step fails
 }
+
+func (s site) onThread(t *othread) bool { return s.Cycle == "" || (t != nil && t.name == s.Cycle) }
 
 var siteName = map[string]string{
 	"R0": "copy-read(start)", "Rm": "copy-read(mid)", "W0": "copy-write(start)", "Wm": "copy-write(mid)",
@@ -100,6 +107,10 @@ type plan struct {
 	FailFS   int    `json:"fail_fs"`   // index of the fs call that returns an error (-1 none)
 	Sites    []site `json:"sites,omitempty"`
 	Label    string `json:"label"` // stable description (fault kind + site), filled by the enumerator
+	// operations of a multi-operation history (history.go): the operation is ReconcileOrphanedFiles alone (its
+	// first hot Delete of a file is the reconcile delete), resp. the roles whose MigrateFile the operation runs
+	ReconcileOp bool     `json:"reconcile_op,omitempty"`
+	Roles       []string `json:"roles,omitempty"`
 
 	fired    map[int]bool
 	hotDel   map[string]int
@@ -163,14 +174,15 @@ func disarm() cycleLog {
 }
 
 // hitSite reports whether an armed, not yet fired site of this kind targets the file (one-shot).
-func hitSite(kind, path string) bool {
+func hitSite(ctx context.Context, kind, path string) bool {
 	gate.mu.Lock()
 	defer gate.mu.Unlock()
 	if !gate.armed || gate.plan == nil {
 		return false
 	}
+	th := threadOf(ctx)
 	for i, s := range gate.plan.Sites {
-		if s.Kind == kind && !gate.plan.fired[i] && gate.env.roleOf(path) == s.Role {
+		if s.Kind == kind && !gate.plan.fired[i] && gate.env.roleOf(path) == s.Role && s.onThread(th) {
 			gate.plan.fired[i] = true
 			return true
 		}
@@ -203,7 +215,7 @@ func classify(q string) string {
 }
 
 // sqlGate is called before every mutating SQL statement of the metadata database.
-func sqlGate(q string, args []driver.NamedValue) error {
+func sqlGate(ctx context.Context, q string, args []driver.NamedValue) error {
 	gate.mu.Lock()
 	if !gate.armed {
 		gate.mu.Unlock()
@@ -225,14 +237,26 @@ func sqlGate(q string, args []driver.NamedValue) error {
 		}
 	}
 	p := gate.plan
+	th := threadOf(ctx)               // overlapping cycles (overlap.go): the cycle that issues the statement
 	if class == "CompleteMigration" { // carries no path: the n-th statement belongs to the n-th migrating file
-		if roles := gate.env.migratingRoles(); p.complete < len(roles) {
-			role = roles[p.complete]
+		roles := gate.env.migratingRoles()
+		if p.Roles != nil {
+			roles = p.Roles
 		}
-		p.complete++
+		n := &p.complete
+		if th != nil {
+			n = &th.complete
+		}
+		if *n < len(roles) {
+			role = roles[*n]
+		}
+		*n++
 	}
 	idx := len(gate.log)
 	gate.log = append(gate.log, sqlEv{class, role})
+	if th != nil {
+		th.note("sql:" + class + "[" + role + "]")
+	}
 	if idx == p.CrashSQL {
 		gate.dead = true
 		gate.mu.Unlock()
@@ -244,7 +268,7 @@ func sqlGate(q string, args []driver.NamedValue) error {
 	fail := false
 	if want != "" {
 		for i, s := range p.Sites {
-			if s.Kind == want && !p.fired[i] && s.Role == role {
+			if s.Kind == want && !p.fired[i] && s.Role == role && s.onThread(th) {
 				p.fired[i] = true
 				fail = true
 				break
@@ -273,7 +297,7 @@ func (d *gateDriver) Open(dsn string) (driver.Conn, error) {
 type gateConn struct{ *sqlite3.SQLiteConn }
 
 func (c *gateConn) ExecContext(ctx context.Context, q string, args []driver.NamedValue) (driver.Result, error) {
-	if err := sqlGate(q, args); err != nil {
+	if err := sqlGate(ctx, q, args); err != nil {
 		return nil, err
 	}
 	return c.SQLiteConn.ExecContext(ctx, q, args)
@@ -283,7 +307,7 @@ func (c *gateConn) Exec(q string, args []driver.Value) (driver.Result, error) {
 	for i, a := range args {
 		nv[i] = driver.NamedValue{Ordinal: i + 1, Value: a}
 	}
-	if err := sqlGate(q, nv); err != nil {
+	if err := sqlGate(context.Background(), q, nv); err != nil {
 		return nil, err
 	}
 	return c.SQLiteConn.Exec(q, args)
@@ -312,7 +336,7 @@ type gateStmt struct {
 }
 
 func (s *gateStmt) ExecContext(ctx context.Context, args []driver.NamedValue) (driver.Result, error) {
-	if err := sqlGate(s.q, args); err != nil {
+	if err := sqlGate(ctx, s.q, args); err != nil {
 		return nil, err
 	}
 	return s.SQLiteStmt.ExecContext(ctx, args)
@@ -322,7 +346,7 @@ func (s *gateStmt) Exec(args []driver.Value) (driver.Result, error) {
 	for i, a := range args {
 		nv[i] = driver.NamedValue{Ordinal: i + 1, Value: a}
 	}
-	if err := sqlGate(s.q, nv); err != nil {
+	if err := sqlGate(context.Background(), s.q, nv); err != nil {
 		return nil, err
 	}
 	return s.SQLiteStmt.Exec(args)
@@ -374,10 +398,14 @@ func (l *limitReader) Read(p []byte) (int, error) {
 
 func (b *faultBackend) ReadTo(ctx context.Context, path string, w io.Writer) error {
 	if b.tier == "hot" {
-		if hitSite("R0", path) {
+		// overlapping cycles: the hot file is opened as part of the copy's first step (see overlap.go)
+		if t := threadOf(ctx); t != nil {
+			t.awaitCopyOpen(path)
+		}
+		if hitSite(ctx, "R0", path) {
 			return fmt.Errorf("read %s: %w", path, errInj)
 		}
-		if hitSite("Rm", path) {
+		if hitSite(ctx, "Rm", path) {
 			sz, _ := b.LocalBackend.StatFile(ctx, path)
 			err := b.LocalBackend.ReadTo(ctx, path, &limitWriter{w, int(sz / 2)})
 			if err == nil {
@@ -390,38 +418,95 @@ func (b *faultBackend) ReadTo(ctx context.Context, path string, w io.Writer) err
 }
 
 func (b *faultBackend) WriteReader(ctx context.Context, path string, r io.Reader, size int64) error {
-	if b.tier == "cold" {
-		if hitSite("W0", path) {
-			return fmt.Errorf("write %s: %w", path, errInj)
-		}
-		if hitSite("Wm", path) {
-			return b.LocalBackend.WriteReader(ctx, path, &limitReader{r, int(size / 2)}, size)
+	if b.tier != "cold" {
+		return b.LocalBackend.WriteReader(ctx, path, r, size)
+	}
+	t := threadOf(ctx)
+	role := ""
+	if t != nil {
+		role = "[" + gate.env.roleOf(path) + "]"
+		t.yield("copy-open" + role) // next: create/truncate the staging file, open the hot file, read chunk 1
+		t.copyOpened(path)
+	}
+	var err error
+	switch {
+	case hitSite(ctx, "W0", path):
+		err = fmt.Errorf("write %s: %w", path, errInj)
+	case hitSite(ctx, "Wm", path):
+		err = b.LocalBackend.WriteReader(ctx, path, t.gated(&limitReader{r, int(size / 2)}, role, b.LocalBackend.GetFullPath(path)+".part"), size)
+	default:
+		err = b.LocalBackend.WriteReader(ctx, path, t.gated(r, role, b.LocalBackend.GetFullPath(path)+".part"), size)
+	}
+	if t != nil {
+		t.copyClosed()
+		// the copy is over: the next step is the metadata update (or the failure bookkeeping)
+		if err == nil {
+			t.yield("after-copy" + role + ":metadata-update")
+		} else {
+			t.yield("after-copy" + role + ":copy-failed")
 		}
 	}
-	return b.LocalBackend.WriteReader(ctx, path, r, size)
+	return err
 }
 
 func (b *faultBackend) Delete(ctx context.Context, path string) error {
-	if b.tier == "cold" && hitSite("B", path) {
-		return fmt.Errorf("delete %s: %w", path, errInj)
+	t := threadOf(ctx)
+	if b.tier == "cold" {
+		if t != nil {
+			t.yield("rollback-delete-cold[" + gate.env.roleOf(path) + "]")
+		}
+		if hitSite(ctx, "B", path) {
+			return fmt.Errorf("delete %s: %w", path, errInj)
+		}
 	}
 	if b.tier == "hot" {
 		gate.mu.Lock()
 		n := -1
+		reconcileOp := false
 		if gate.armed && gate.plan != nil {
-			gate.plan.hotDel[path]++
-			n = gate.plan.hotDel[path]
+			cnt := gate.plan.hotDel
+			if t != nil {
+				cnt = t.hotDel
+			}
+			cnt[path]++
+			n = cnt[path]
+			reconcileOp = gate.plan.ReconcileOp
 		}
 		gate.mu.Unlock()
+		if t != nil {
+			t.yield("delete-hot[" + gate.env.roleOf(path) + "]")
+		}
 		// first hot Delete of a file in a cycle = source delete of MigrateFile, second = ReconcileOrphanedFiles
-		if n == 1 && hitSite("D", path) {
+		// (an operation that is ReconcileOrphanedFiles alone: the first one is the reconcile delete)
+		if n == 1 && !reconcileOp && hitSite(ctx, "D", path) {
 			return fmt.Errorf("delete %s: %w", path, errInj)
 		}
-		if n == 2 && hitSite("G", path) {
+		if (n == 2 || (n == 1 && reconcileOp)) && hitSite(ctx, "G", path) {
 			return fmt.Errorf("delete %s: %w", path, errInj)
 		}
 	}
 	return b.LocalBackend.Delete(ctx, path)
+}
+
+// ListObjects / Exists: pass-through; scheduling points of overlapping cycles (the scan's listing of the hot
+// tier and the reconciliation's existence probe read state the other cycle changes)
+func (b *faultBackend) ListObjects(ctx context.Context, prefix string) ([]storage.ObjectInfo, error) {
+	t := threadOf(ctx)
+	if t != nil && b.tier == "hot" {
+		t.yield("scan-list-hot")
+	}
+	o, err := b.LocalBackend.ListObjects(ctx, prefix)
+	if t != nil && b.tier == "hot" {
+		t.yield("scan-register+find-candidates") // next: RecordFile per listed file, FindCandidates, RecordMigration
+	}
+	return o, err
+}
+
+func (b *faultBackend) Exists(ctx context.Context, path string) (bool, error) {
+	if t := threadOf(ctx); t != nil && b.tier == "hot" {
+		t.yield("reconcile-exists-hot[" + gate.env.roleOf(path) + "]")
+	}
+	return b.LocalBackend.Exists(ctx, path)
 }
 
 // ------------------------------------------------------------------ layouts
@@ -830,6 +915,9 @@ type rawViolation struct {
 	Detail string   `json:"detail"`
 	Case   any      `json:"case"`
 	Obs    *obs     `json:"observed"`
+	Family string   `json:"family,omitempty"` // "" (one cycle) | history | overlap
+	Ops    []string `json:"ops,omitempty"`    // history: the operations (with the fault)
+	Steps  int      `json:"steps,omitempty"`  // overlap: length of the interleaving
 }
 
 type judge struct {
@@ -838,6 +926,139 @@ type judge struct {
 	faults []string
 	cs     any
 	bad    int
+	family string   // "" | history | overlap
+	ops    []string // history
+	role   string   // the file the current verdict is about ("" = the query as a whole)
+
+	buffered []bufViolation // overlap
+}
+
+var parens = regexp.MustCompile(`\([^)]*\)`)
+
+type bufViolation struct {
+	rv   rawViolation
+	cls  string
+	role string
+}
+
+var oraclePriority = []string{"content-unreadable", "multi-tier-query-fails", "rows-invisible", "rows-visible-twice", "unexpected-file-visible"}
+
+func fileAnomaly(role string, x *fileObs) (string, bool) {
+	d := fmt.Sprintf("%s[meta=%s hot=%s cold=%s]", role, x.Meta, x.Hot, x.Cold)
+	bad := (x.Hot != "ok" && x.Cold != "ok") || x.Hot == "corrupt" || x.Cold == "corrupt" || (x.Meta == "hot" && x.Hot != "ok") || (x.Meta == "cold" && x.Cold != "ok")
+	return d, bad
+}
+
+// flush reports the buffered verdicts of a history / overlap case: ONE per phase class. One anomaly (a truncated
+// cold copy, metadata that names a tier the file is not in, a file in no tier) fails several oracles at once, in a
+// layout-dependent way (the statement fails outright, misses rows, or attributes rows of the damaged file to
+// other files), and several faults of one operation leave the same anomaly. So the class is
+//
+//	<kind>@<phase class> | <operations, the faulted one marked {*}> : <anomalous files> | <layout>
+//
+// kind = content-unreadable (the complete content is in no tier) or query-answer-wrong (any other oracle);
+// anomalous = complete content in no tier, a corrupt copy in a tier, or not in the tier the metadata names.
+// The concrete fault, the failing oracles and the observation are in the description / replay object.
+func (j *judge) flush() {
+	byCls := map[string][]bufViolation{}
+	var order []string
+	for _, b := range j.buffered {
+		if byCls[b.cls] == nil {
+			order = append(order, b.cls)
+		}
+		byCls[b.cls] = append(byCls[b.cls], b)
+	}
+	j.buffered = nil
+	for _, cls := range order {
+		bs := byCls[cls]
+		top, topRank, topName, topWho := bs[0], 1000, "", ""
+		var details, roles []string
+		onlyLive := true
+		seenDetail := map[string]bool{}
+		for _, b := range bs {
+			if !seenDetail[b.rv.Detail] {
+				seenDetail[b.rv.Detail] = true
+				details = append(details, b.rv.Detail)
+			}
+			if b.role != "" {
+				roles = append(roles, b.role)
+			}
+			name, who, live := strings.TrimSuffix(b.rv.Oracle, "@"+cls), "", 0
+			if strings.HasPrefix(name, "long-running-handler") {
+				i := strings.LastIndex(name, ":")
+				name, who, live = name[i+1:], name[:i+1], 100
+			} else {
+				onlyLive = false
+			}
+			rank := 2 // rows-invisible and its stale-read-expression form
+			for r, o := range oraclePriority {
+				if name == o {
+					rank = r
+				}
+			}
+			if rank+live < topRank {
+				top, topRank, topName, topWho = b, rank+live, name, who
+			}
+		}
+		var anomalous []string
+		if top.rv.Obs != nil {
+			for _, fl := range j.e.files {
+				if d, bad := fileAnomaly(fl.Role, top.rv.Obs.Files[fl.Role]); bad {
+					anomalous = append(anomalous, d)
+				}
+			}
+			if len(anomalous) == 0 { // nothing wrong with any single file: name the files the oracles name
+				for _, fl := range j.e.files {
+					for _, r := range roles {
+						if r == fl.Role {
+							d, _ := fileAnomaly(fl.Role, top.rv.Obs.Files[fl.Role])
+							anomalous = append(anomalous, d)
+							break
+						}
+					}
+				}
+			}
+		}
+		rv := top.rv
+		kind := "query-answer-wrong"
+		if topName == "content-unreadable" {
+			kind = "content-unreadable"
+		}
+		if onlyLive { // a freshly started arc answers correctly: the defect is in the running process's view
+			kind = topWho + kind
+		}
+		rv.Oracle = kind + "@" + cls
+		rv.Detail = strings.Join(details, "; ")
+		var what string
+		if j.family == "history" {
+			var sk []string
+			if cd, ok := j.cs.(caseDesc); ok {
+				for _, o := range cd.Ops {
+					if o.Plan != nil {
+						sk = append(sk, o.name()+"{*}")
+						rv.Detail = "fault " + o.Plan.Label + ": " + rv.Detail
+					} else {
+						sk = append(sk, o.name())
+					}
+				}
+			}
+			what = "history:" + strings.Join(sk, " ; ")
+			rv.Ops = append(sk, strings.Join(anomalous, " "))
+		} else {
+			what = "overlap(" + strings.Join(j.faults, " ; ") + ")"
+			// what is needed beyond the overlap itself: an injected failure and/or a further operation (none: the
+			// same anomaly under "no-fault" dominates the ones found again with a failure injected)
+			var needs []string
+			for _, f := range j.faults {
+				if f != "no-fault" {
+					needs = append(needs, f)
+				}
+			}
+			rv.Ops = append(needs, strings.Join(anomalous, " "))
+		}
+		rv.Faults = []string{what + ":" + strings.Join(anomalous, " ")}
+		j.run.Violate(rv.Oracle+"|"+rv.Faults[0]+"|"+j.e.lay.String(), rv.Detail, rv)
+	}
 }
 
 func (j *judge) seen(f fileSpec, x *fileObs) string {
@@ -859,16 +1080,26 @@ func (j *judge) violate(oracle, phase, detail string, o *obs) {
 	f := append([]string{}, j.faults...)
 	cls := "after-recovery"
 	switch {
-	case strings.HasPrefix(oracle, "long-running-handler"):
+	case j.family == "" && strings.HasPrefix(oracle, "long-running-handler"):
 		// the handler of the process that ran the cycle: "the cycle has finished" is the only phase there is
 		cls = "after-a-finished-cycle"
 	case strings.HasPrefix(phase, "crash-state"):
 		cls = "at-crash-state"
 	case strings.HasPrefix(phase, "faulty-cycle-finished"):
 		cls = "after-faulty-cycle"
+	case strings.HasPrefix(phase, "after-op"):
+		cls = "after-op"
 	}
 	oracle += "@" + cls
-	rv := rawViolation{oracle, f, j.e.lay.String(), j.e.lay.rank(), phase, detail, j.cs, o}
+	rv := rawViolation{Oracle: oracle, Faults: f, Layout: j.e.lay.String(), Rank: j.e.lay.rank(), Phase: phase, Detail: detail, Case: j.cs, Obs: o, Family: j.family, Ops: j.ops}
+	if j.family != "" {
+		// histories and overlaps: one verdict per (case, phase class), see flush
+		if cd, ok := j.cs.(caseDesc); ok && cd.Overlap != nil {
+			rv.Steps = len(cd.Overlap.Schedule)
+		}
+		j.buffered = append(j.buffered, bufViolation{rv, cls, j.role})
+		return
+	}
 	j.run.Violate(oracle+"|"+strings.Join(f, " + ")+"|"+j.e.lay.String(), detail, rv)
 }
 
@@ -881,16 +1112,19 @@ func (j *judge) intermediate(o *obs, phase, who string) {
 	}
 	for _, f := range j.e.files {
 		x := o.Files[f.Role]
+		j.role = f.Role
 		if who == "" && x.Hot != "ok" && x.Cold != "ok" {
 			j.violate("content-unreadable", phase, fmt.Sprintf("no tier holds the complete content of %s (hot=%s cold=%s)", f.Role, x.Hot, x.Cold), o)
 		}
 	}
+	j.role = ""
 	if o.QueryErr != "" {
 		j.violate(who+"multi-tier-query-fails", phase, "the multi-tier query fails: "+o.QueryErr, o)
 		return
 	}
 	for _, f := range j.e.files {
 		x := o.Files[f.Role]
+		j.role = f.Role
 		if x.Seen == 0 || (j.e.lay.Size != "1B" && x.Distinct != f.NRows) {
 			j.violate(who+"rows-invisible", phase, "the multi-tier query does not see every row: "+j.seen(f, x), o)
 		}
@@ -904,16 +1138,19 @@ func (j *judge) final(o *obs, phase, who string) {
 	}
 	for _, f := range j.e.files {
 		x := o.Files[f.Role]
+		j.role = f.Role
 		if who == "" && x.Hot != "ok" && x.Cold != "ok" {
 			j.violate("content-unreadable", phase, fmt.Sprintf("no tier holds the complete content of %s (hot=%s cold=%s)", f.Role, x.Hot, x.Cold), o)
 		}
 	}
+	j.role = ""
 	if o.QueryErr != "" {
 		j.violate(who+"multi-tier-query-fails", phase, "the multi-tier query fails: "+o.QueryErr, o)
 		return
 	}
 	for _, f := range j.e.files {
 		x := o.Files[f.Role]
+		j.role = f.Role
 		rowsOK := j.e.lay.Size == "1B" || (x.Rows == f.NRows && x.Distinct == f.NRows)
 		switch {
 		case x.Seen == 0 || (j.e.lay.Size != "1B" && x.Distinct < f.NRows):
@@ -922,6 +1159,7 @@ func (j *judge) final(o *obs, phase, who string) {
 			j.violate(who+"rows-visible-twice", phase, "the multi-tier query sees rows more than once: "+j.seen(f, x), o)
 		}
 	}
+	j.role = ""
 	if len(o.Unexpected) > 0 {
 		j.violate(who+"unexpected-file-visible", phase, "the multi-tier query sees files that are not data files: "+strings.Join(o.Unexpected, ","), o)
 	}
@@ -978,10 +1216,12 @@ func (e *env) siteLabel(s site) string {
 // ------------------------------------------------------------------ one case
 
 type caseDesc struct {
-	Layout  string  `json:"layout"`
-	Kind    string  `json:"kind"`
-	Plans   []*plan `json:"cycles"` // injected cycles in order; a fault-free cycle follows
-	Restart bool    `json:"restart_after_error,omitempty"`
+	Layout  string   `json:"layout"`
+	Kind    string   `json:"kind"`
+	Plans   []*plan  `json:"cycles"` // injected cycles in order; a fault-free cycle follows
+	Restart bool     `json:"restart_after_error,omitempty"`
+	Ops     []opDesc `json:"history,omitempty"` // multi-operation history (history.go)
+	Overlap *ovlDesc `json:"overlap,omitempty"` // two overlapping cycles (overlap.go)
 }
 
 type caseResult struct {
@@ -996,18 +1236,20 @@ type stats struct {
 	cases, reached, bad                                   int64
 	transientDouble, crashStates, faultyCycles, reconcile int64
 	rowQueries, rowMemoHits, liveJudged, liveDiffers      int64
+	histories, histPruned, ovlStates, ovlRuns             int64
+	extra                                                 map[string]int64
 	states                                                map[string]bool
 	byKind                                                map[string]int64
 }
 
-var st = stats{states: map[string]bool{}, byKind: map[string]int64{}}
+var st = stats{states: map[string]bool{}, byKind: map[string]int64{}, extra: map[string]int64{}}
 
 // runCase executes the injected cycles (restart after each crash; same process after an error unless
 // restart is asked for), then one further fault-free cycle, and judges every state.
 func runCase(run *ev.Run, l layout, kind string, plans []*plan, restartAfterError bool, golden []*cycleLog) caseResult {
 	e := newEnv(l)
 	defer e.remove()
-	cd := caseDesc{l.String(), kind, plans, restartAfterError}
+	cd := caseDesc{Layout: l.String(), Kind: kind, Plans: plans, Restart: restartAfterError}
 	var res caseResult
 	for _, p := range plans {
 		res.faults = append(res.faults, p.Label)
@@ -1153,6 +1395,9 @@ type job struct {
 	restart bool
 	golden  []*cycleLog
 	expand  bool // thorough: enumerate a second crash over this case's recovery cycle
+	hist    *histJob
+	ovl     *ovlJob
+	weight  int // estimated number of executed cases (for the static distribution over the worker processes)
 }
 
 func tornCuts(n int, thorough bool) []int {
@@ -1204,7 +1449,7 @@ func sitePlans(e *env, max int) []*plan {
 	var all []site
 	for _, r := range e.migratingRoles() {
 		for _, k := range siteOrder {
-			all = append(all, site{k, r})
+			all = append(all, site{Kind: k, Role: r})
 		}
 	}
 	excl := func(a, b site) bool { // two variants of the same call cannot both fire
@@ -1292,13 +1537,71 @@ func main() {
 		}
 		e.remove()
 	}
-	for i, jb := range jobs {
-		if i%nShards != shard {
-			continue
+	jobs = append(jobs, newJobs(layouts, thorough)...)
+	if only := os.Getenv("VERIF_C12_ONLY"); only != "" { // development aid: run one dimension; never reported as exhaustive
+		complete = false
+		var keep []job
+		for _, jb := range jobs {
+			k := "base"
+			if jb.hist != nil {
+				k = "history"
+			} else if jb.ovl != nil {
+				k = "overlap"
+			}
+			if strings.Contains(only, k) {
+				keep = append(keep, jb)
+			}
 		}
+		jobs = keep
+	}
+	// static distribution: longest estimated job first onto the least loaded worker (same result in every worker)
+	for i := range jobs {
+		if jobs[i].weight == 0 {
+			jobs[i].weight = 1
+			if jobs[i].expand {
+				jobs[i].weight = 12
+			}
+		}
+	}
+	order := make([]int, len(jobs))
+	for i := range order {
+		order[i] = i
+	}
+	sort.SliceStable(order, func(a, b int) bool { return jobs[order[a]].weight > jobs[order[b]].weight })
+	load := make([]int, nShards)
+	owner := make([]int, len(jobs))
+	for _, i := range order {
+		m := 0
+		for s := range load {
+			if load[s] < load[m] {
+				m = s
+			}
+		}
+		owner[i] = m
+		load[m] += jobs[i].weight
+	}
+	var mine []job
+	for _, i := range order { // heavy jobs first: an internal deadline cuts the cheap tail, and says so
+		if owner[i] == shard {
+			mine = append(mine, jobs[i])
+		}
+	}
+	for _, jb := range mine {
 		if run.TimeUp() {
 			complete = false
 			break
+		}
+		if jb.hist != nil {
+			if !runHistJob(run, *jb.hist, thorough) {
+				complete = false
+			}
+			continue
+		}
+		if jb.ovl != nil {
+			if r := exploreOverlap(run, *jb.ovl); !r.complete {
+				complete = false
+			}
+			continue
 		}
 		res := runCase(run, jb.l, jb.kind, jb.plans, jb.restart, jb.golden)
 		if !jb.expand || len(jb.plans) != 1 {
@@ -1337,12 +1640,16 @@ func main() {
 	duck.Close()
 	counters := map[string]int64{"cases": st.cases, "reached": st.reached, "bad": st.bad, "crash_states": st.crashStates,
 		"faulty_cycles": st.faultyCycles, "transient_double": st.transientDouble, "recovery_removed_hot_copy": st.reconcile,
-		"row_queries": st.rowQueries, "row_memo": st.rowMemoHits, "live_judged": st.liveJudged, "live_differs": st.liveDiffers}
+		"row_queries": st.rowQueries, "row_memo": st.rowMemoHits, "live_judged": st.liveJudged, "live_differs": st.liveDiffers,
+		"histories": st.histories, "history_positions_pruned": st.histPruned, "overlap_states": st.ovlStates, "overlap_runs": st.ovlRuns}
 	for k, v := range st.byKind {
 		counters["kind:"+k] = v
 	}
 	for k := range st.states {
 		counters["state:"+k] = 1
+	}
+	for k, v := range st.extra {
+		counters[k] = v
 	}
 	os.RemoveAll(scratch) // FinishShard exits the process: deferred clean-up would not run
 	run.FinishShard(counters, samples.List(), complete)
@@ -1414,7 +1721,18 @@ func replay(run *ev.Run) {
 	defer os.RemoveAll(scratch)
 	setupProcess()
 	traceF = os.Stdout
-	runCase(run, l, cd.Kind, cd.Plans, cd.Restart, nil)
+	switch {
+	case cd.Overlap != nil:
+		jb := ovlJob{l: l, label: "no-fault"}
+		if len(cd.Plans) > 0 {
+			jb.plan, jb.label = cd.Plans[0], cd.Plans[0].Label
+		}
+		ovlCase(run, jb, ovlPoint{sched: cd.Overlap.Schedule, steps: cd.Overlap.Steps}, cd.Overlap.Mode, cd.Overlap.Then)
+	case cd.Ops != nil:
+		runHistory(run, l, cd.Kind, cd.Ops, nil)
+	default:
+		runCase(run, l, cd.Kind, cd.Plans, cd.Restart, nil)
+	}
 	duck.Close()
 	os.RemoveAll(scratch)
 	raw, _ := run.TakeViolations()
@@ -1481,6 +1799,19 @@ func properSubset(a, b []string) bool {
 	return true
 }
 
+func properSubsequence(a, b []string) bool {
+	if len(a) >= len(b) {
+		return false
+	}
+	i := 0
+	for _, x := range b {
+		if i < len(a) && a[i] == x {
+			i++
+		}
+	}
+	return i == len(a)
+}
+
 func parent(run *ev.Run, thorough bool) {
 	counters, samples, complete := run.SpawnShards(16)
 	raw, counts := run.TakeViolations()
@@ -1515,7 +1846,12 @@ func parent(run *ev.Run, thorough bool) {
 	for i, it := range items {
 		dominated := false
 		for k, o := range items {
-			if k != i && o.rv.Oracle == it.rv.Oracle && o.rv.Layout == it.rv.Layout && properSubset(o.atoms, it.atoms) {
+			if k == i || o.rv.Oracle != it.rv.Oracle || o.rv.Layout != it.rv.Layout || o.rv.Family != it.rv.Family {
+				continue
+			}
+			// one cycle: a proper subset of the fault set fails the same way; history / overlap followed by an
+			// operation: a proper subsequence of the operations (same fault) fails the same way
+			if (it.rv.Family == "" && properSubset(o.atoms, it.atoms)) || (it.rv.Family != "" && properSubsequence(o.rv.Ops, it.rv.Ops)) {
 				dominated = true
 				break
 			}
@@ -1532,7 +1868,7 @@ func parent(run *ev.Run, thorough bool) {
 		if c == nil {
 			c = &class{best: it, lays: map[string]bool{}}
 			classes[key] = c
-		} else if it.rv.Rank < c.best.rv.Rank {
+		} else if it.rv.Rank < c.best.rv.Rank || (it.rv.Rank == c.best.rv.Rank && it.rv.Steps < c.best.rv.Steps) {
 			c.best = it
 		}
 		c.n += it.n
@@ -1577,17 +1913,40 @@ func parent(run *ev.Run, thorough bool) {
 	run.Coverage["row_level_statements_executed"] = counters["row_queries"]
 	run.Coverage["row_level_statements_answered_from_an_identical_earlier_execution"] = counters["row_memo"]
 	run.Coverage["samples"] = samples
+	run.Coverage["histories_executed_fault_free"] = counters["histories"]
+	run.Coverage["history_fault_positions_skipped_by_the_two_stated_reductions"] = counters["history_positions_pruned"]
+	ovl := map[string]map[string]int64{}
+	for k, v := range counters {
+		if strings.HasPrefix(k, "ovlstat:") {
+			parts := strings.Split(strings.TrimPrefix(k, "ovlstat:"), " | ")
+			name := parts[0] + " | " + parts[1]
+			if ovl[name] == nil {
+				ovl[name] = map[string]int64{}
+			}
+			ovl[name][parts[2]] = v
+		}
+	}
+	run.Coverage["overlapping_cycles_explorations"] = ovl
+	run.Coverage["overlapping_cycles_states"] = counters["overlap_states"]
+	run.Coverage["overlapping_cycles_executions_of_the_exploration"] = counters["overlap_runs"]
 	lay := "file sizes {1 byte, one parquet file >= 70 KB (3 streamed chunks)} x {no, one} already-cold sibling x {no, one} hot sibling that stays hot"
 	if thorough {
 		lay += "; plus layouts with a second file migrating in the same cycle"
 	}
 	run.Coverage["rule"] = "layouts: " + lay + ". Per layout the fault-free cycle is recorded through the vos shim (file-system calls of both LocalBackends) and the wrapping SQL driver (mutating statements of the tier metadata), then EVERY element of: {crash before each file-system call (each write also torn)} + {crash before each SQL statement} + {each file-system call returns an error} + {all subsets of size 1..2 of the step failures copy-read(start|mid), copy-write(start|mid), metadata-update, source-delete, rollback-delete, reconcile-delete, record-migration, complete-migration, scan-record-file}" +
 		map[bool]string{true: " + {second crash at every event of the recovery cycle} + {single step failure then crash before each file-system call} + {step failures followed by a restart}", false: ""}[thorough] +
-		" is executed on the real Manager, followed by restart (after a crash) and one further fault-free cycle. Every crash state, every state a finished faulty cycle leaves and every final state is judged through a freshly started Manager+QueryHandler; finished cycles are additionally judged through the long-lived QueryHandler of the process that ran them (it served the same statement before the cycle). evaluations = executed cases; a case is distinct by construction (layout, fault tuple) and counted non-trivial when every injected crash point / failure was actually reached by the run"
+		" is executed on the real Manager, followed by restart (after a crash) and one further fault-free cycle. Every crash state, every state a finished faulty cycle leaves and every final state is judged through a freshly started Manager+QueryHandler; finished cycles are additionally judged through the long-lived QueryHandler of the process that ran them (it served the same statement before the cycle). evaluations = executed cases; a case is distinct by construction (layout, fault tuple) and counted non-trivial when every injected crash point / failure was actually reached by the run. " +
+		"HISTORIES: ALL sequences of 1.." + map[bool]string{true: "3 operations on every single-file layout (1..2 on the two-file layouts, with migrate-stale[G] added)", false: "2 operations on the layouts {1 byte, 70 KB} x {no sibling, both siblings} and 1..3 operations on the layout 1 byte/no sibling"}[thorough] +
+		" over the alphabet {cycle = RunMigrationCycle, migrate-stale[F] = Migrator.MigrateFile of the candidate that Migrator.FindCandidates listed BEFORE the first operation (stale candidate list / retry), reconcile = ReconcileOrphanedFiles alone} on one running process; the history [cycle] is the one-cycle enumeration above. Each history runs fault-free, then with EVERY single fault in EVERY position, the faults derived from the recorded events of that operation in the fault-free run of that history: crash before each file-system call (writes also torn), crash before each SQL statement, each file-system call returns an error, each single step failure whose step occurs in the operation. Two reductions, both resting on executed facts: a position is skipped when an earlier operation of the history performed no mutating file-system call and no metadata statement in the fault-free run (the case equals the one of the shorter history), and a fault before a trailing fault-free cycle is skipped (every history is followed by a fault-free cycle anyway). After EVERY operation the state is judged (crash state: restart first) like a crash state / finished faulty cycle, a fault-free cycle of a so far fault-free history like a final state; after the last operation one further fault-free cycle (which ends with reconciliation) and the final oracle. " +
+		"OVERLAP: two RunMigrationCycle calls on the same Manager (cron + manual trigger; there is no guard), each under its own context, parked at the scheduling points {scan-list-hot, scan-register+find-candidates, copy-open, copy-write#k per 32 KB chunk, copy-rename/copy-abort, after-copy (next: UpdateTier), rollback-delete-cold, delete-hot, reconcile-exists-hot}: = the recorded file-system calls and SQL statements, except that SQL statements with no storage call between them form one step and the empty-directory clean-up belongs to the delete step. ALL interleavings of the two step lists are explored depth-first with explicit-state pruning (state = bytes of every file in both tiers and of the staging file + tier metadata + per cycle its own step/SQL trace, pending step, and what its open staging descriptor refers to), layouts " + map[bool]string{true: "all 8 with one migrating file", false: "{1 byte/no sibling, 70 KB/both siblings}"}[thorough] +
+		"; at EVERY distinct disk state the process is killed (restart, judged as a crash state, fault-free cycle, final oracle); every distinct terminal state is also continued in the same process with nothing / migrate-stale[F] / reconcile, then the fault-free cycle and the final oracle" + map[bool]string{true: "; additionally every single step failure (10 kinds) in one of the two (symmetric) cycles on the layouts {1 byte/no sibling, 70 KB/both siblings}", false: ""}[thorough] + ". Counts per exploration: coverage.overlapping_cycles_explorations"
 	fmt.Printf("C12: %d cases (%d with every injected fault reached), %d crash states + %d finished faulty cycles judged, %d distinct observed states, %d transient double-visibility states, %d raw violation tuples -> %d classes\n",
 		counters["cases"], counters["reached"], counters["crash_states"], counters["faulty_cycles"], states, counters["transient_double"], len(raw), len(classes))
 	run.Assume("crash model: process crash between system calls (every completed file-system call and every committed SQLite statement is durable, nothing after the crash point reaches disk or database); SQLite's own atomic commit and power-loss reordering are trusted / not modelled")
 	run.Assume("the cold tier is a second storage.LocalBackend (S3/Azure are unreachable offline); the Migrator drives both tiers through the same storage.Backend interface")
+	run.Assume("overlapping cycles are explored for layouts with ONE migrating file: with two, the order of the reconciliation's probes is ORDER BY migrated_at DESC over a one-second CURRENT_TIMESTAMP, i.e. decided by the wall clock")
+	run.Assume("overlapping cycles: a cycle is never parked inside MetadataStore's mutex, therefore runs of consecutive SQL statements are atomic steps; in particular the scan's RecordFile upserts, FindCandidates and RecordMigration of one cycle are not interleaved with the other cycle's UpdateTier")
+	run.Assume("a stale candidate list survives a crash of the process in the histories (the candidate is re-used after the restart): this over-approximates a retry and models a second process that scanned earlier")
 	run.Assume("steady state before the cycle: every file of the layout is registered in the tier metadata (as an earlier cycle's ScanAndRegisterFiles leaves it); MigrationMaxConcurrent=1 so that the event order is deterministic")
 	run.Assume("the long-lived handler observer is absent in cases that inject cold-side step failures (copy-write, rollback-delete): the cold backend is then a wrapper and storage.GetStoragePath needs the concrete *LocalBackend; those cases are judged by the fresh observer only")
 	run.Assume("the long-lived handler repeats its statement within milliseconds of the cycle; cache TTLs (60 s SQL transform cache, 30 s tier cache) are real wall-clock TTLs and are not advanced")
